@@ -80,10 +80,13 @@ size_t splinetable<Alloc>::estimateMemory(const std::string& filePath,
 		std::ostringstream hduname;
 		hduname << "KNOTS" << i;
 		fits_movnam_hdu(fits, IMAGE_HDU, const_cast<char*>(hduname.str().c_str()), 0, &error);
-		long nknots;
+		long nknots = 0;
+		int knotdim = 0;
+		fits_get_img_dim(fits, &knotdim, &error);
 		fits_get_img_size(fits, 1, &nknots, &error);
 		
-		if (error != 0) {
+		//(without exactly one axis there is no knot count to read)
+		if (error != 0 || knotdim != 1) {
 			throw std::runtime_error("Error reading knot vector "+std::to_string(i));
 		}
 		
